@@ -90,7 +90,9 @@ func builtinJSONParseWalk(ctx builtinJSONParseContext, rawValue interface{}) (Va
 		obj := ctx.call.runtime.newObject()
 		for name, rawValue := range value {
 			if value, exists := builtinJSONParseWalk(ctx, rawValue); exists {
-				obj.put(name, value, false)
+				// 15.12.2: members are created like those of an object literal
+				// ([[DefineOwnProperty]]), whatever the prototype chain holds.
+				obj.defineProperty(name, value, 0o111, false)
 			}
 		}
 		return objectValue(obj), true
